@@ -9,7 +9,8 @@ CONSTANTS
   Ops <- CoreOps
   Aging = FALSE
   TwoStep = FALSE
+  RecAging = TRUE
 VIEW view
 INVARIANTS TypeOK OneRunner RunnerRegistered NoPanic AtMostOnce StartOnce MutexInv WaitTruth StaleRejected IndexLags
-PROPERTIES StartedFromNS TerminalStable OnlyRunningResumed
+PROPERTIES StartedFromNS TerminalStable OnlyRunningResumed OnlyStaleClosed
 CHECK_DEADLOCK FALSE
